@@ -1,6 +1,6 @@
 #!/bin/bash
 # tools/seedbatch.sh <outfile> <id>/<variant> ... : confirm seeded changes and run the checks against them on a private
-# clone of /repo (never touches /repo or /verif/evidence). Meant for `vp run -- tools/seedbatch.sh ...` or direct use.
+# clone of /repo (never touches /repo; the check runs with -no-evidence, so /verif/evidence is not rewritten either). Meant for `vp run -- tools/seedbatch.sh ...` or direct use.
 # Seeds are read from /tmp/seeded-out/<id>/<variant>/ (or /verif/seeded/<id>-<variant>/ when the former is missing).
 export GOFLAGS=-mod=mod GOPROXY=off GOSUMDB=off GOTOOLCHAIN=local
 V=$(pwd)
@@ -32,7 +32,7 @@ for sv in "$@"; do
   rm -f $ddir/$demo
   for f in $(cd $R/hide && find . -type f); do mv $R/hide/$f $f; done
   # the check, on the clone with the change applied
-  (cd $V && bin/govc -repo $R/repo -verif $V -prop $id -tier quick > $R/check.out 2>&1); rc=$?
+  (cd $V && bin/govc -repo $R/repo -verif $V -prop $id -tier quick -no-evidence > $R/check.out 2>&1); rc=$?
   fails=$(grep -E "^FAILED" $R/check.out | sed 's/^FAILED *//' | cut -c1-160 | head -6 | tr '\n' ';')
   viol=$(grep -c "^VIOLATION" $R/check.out)
   nofail=$(grep -c "no-failing-input-found" $R/check.out)
